@@ -279,6 +279,9 @@ class DC:
             q0, q1, q2 = self.now
         else:
             q0, q1, q2 = conc(c, l0), conc(c, l1), conc(c, l2)
+        if not (0 <= q1 <= 31 and 0 <= q2 <= 31 and q0 >= 0) or (truth(l0 == -1) and not truth(all_of([l1 == -1, l2 == -1]))):
+            # MS-GKDI 3.1.4.1: a request that names only part of a key identifier is answered with E_INVALIDARG and no key
+            return self.response(conn, refs.cat(refs.le(0, 4), bytes(4), refs.le(0, 8), refs.le(0x80070057, 4)), conn.ctx)
         rk = uuid.UUID(bytes_le=bytes(rkid)) if rkid is not None else e2e.RK
         sdv = bytes(sd) if not isinstance(sd, V.SymSeq) or sd.concrete() else sd
         # the domain name length decides the reply length: pick it so that the sealed reply needs the wanted auth padding (0, 4, 8 or 12)
